@@ -48,6 +48,18 @@ def struct_tag(cxx_name, prefix='S_'):
     return cn
 
 
+def _match_paren(t, i):
+    d = 0
+    for j in range(i, len(t)):
+        if t[j] == '(':
+            d += 1
+        elif t[j] == ')':
+            d -= 1
+            if d == 0:
+                return j
+    return -1
+
+
 class Emitter:
     def __init__(self, tu, leaf_pred=None, std_models=None, opts=None):
         """leaf_pred(fn_node, record_display_name) -> truthy leaf key if the function is a contract leaf
@@ -1204,12 +1216,28 @@ class Emitter:
         a, b = inner(n)
         return '(%s %s %s)' % (self.E(a), n['opcode'], self.E(b))
 
+    def addr(self, s):
+        """address of the lvalue text s.  With opt 'amp_star', &(*X) is emitted as X (C11 6.5.3.2p3: neither operator is
+        evaluated) so that goto-instrument --nondet-volatile does not turn the operand of & into a nondet value."""
+        if self.opts.get('amp_star'):
+            t = s.strip()
+            while t.startswith('(') and _match_paren(t, 0) == len(t) - 1:
+                t = t[1:-1].strip()
+            if t.startswith('*'):
+                r = t[1:].strip()
+                if (r.startswith('(') and _match_paren(r, 0) == len(r) - 1) or re.match(r'^[A-Za-z_]\w*$', r):
+                    return '(%s)' % r
+                m = re.match(r'^[A-Za-z_]\w*\(', r)
+                if m and _match_paren(r, m.end() - 1) == len(r) - 1:
+                    return '(%s)' % r
+        return '(&(%s))' % s
+
     def E_UnaryOperator(self, n):
         a = inner(n)[0]
         op = n['opcode']
         if op == '&':
             # address-of: of an lvalue -> &lvalue ; of a function -> function
-            return '(&%s)' % self.E(a)
+            return self.addr(self.E(a))
         if op == '*':
             return '(*%s)' % self.E(a)
         if op in ('__extension__',):
@@ -1419,7 +1447,7 @@ class Emitter:
     def arg(self, a, ptype):
         """bind argument expression a to a parameter of C++ type string ptype"""
         if self.is_ref_type(ptype):
-            return '&(%s)' % self.E(a)
+            return self.addr(self.E(a))
         return self.E(a)
 
     def callee_of(self, e):
@@ -1460,7 +1488,7 @@ class Emitter:
         ce = self.E(callee_e)
         out = []
         for a, pt in zip(args, ft[2]):
-            out.append('&(%s)' % self.E(a) if pt[0] == 'ref' else self.E(a))
+            out.append(self.addr(self.E(a)) if pt[0] == 'ref' else self.E(a))
         self.lowerings['indirect call'] += 1
         s = '(%s)(%s)' % (ce, ', '.join(out))
         if ft[1][0] == 'ref':
@@ -1542,7 +1570,7 @@ class Emitter:
         if callee.get('isArrow'):
             ox = self.E(obj)
         else:
-            ox = '&(%s)' % self.E(obj)
+            ox = self.addr(self.E(obj))
         ox = '(%s)%s' % (self.cdecl(self.this_ctype(fn)), ox)
         return self.direct_call(fn, n, args, ox)
 
